@@ -80,7 +80,7 @@ FNS = {'swap': (lambda a, b: b, ['b']), 'const': (lambda: 0, []), 'pair': (lambd
 
 
 def rows_table(rows, ids):
-    cols = ['a', 'b', 'id']
+    cols = list(rows[0]) if rows else ['a', 'b', 'id']
     if not rows:
         return dictable([], cols)
     return dictable({c: [untag(r[c], ids) for r in rows] for c in cols})
@@ -129,7 +129,90 @@ def dsortval_obs(rows, orders):
     return o
 
 
+def universe2():
+    """dicts whose keys are not (all) strings - 'dicts of these' as the statement says - with a few ordinary partners"""
+    d1 = datetime.datetime(2000, 1, 1)
+    m1 = {}; m1['b'] = 2; m1[1] = 'a'
+    i2 = {}; i2[2] = 'b'; i2[1] = 'a'
+    return [{1: 'a', 'b': 2}, {1: 'a', 'b': 3}, m1, {1: 'a', 2: 'b'}, i2, {1: 'a', 2: 'c'}, {1: 2}, {'a': 2}, {2: 2}, {1.5: 1}, {None: 1}, {None: 1, 'a': 2}, {1.5: 1, 2: 2},
+            {True: 1, 'a': 2}, {True: 1}, {(1, 2): 1}, {(1, 2): 1, 'a': 2}, {d1: 1}, {d1: 1, 1: 1}, {'a': 1, 'b': 2}, {'a': 1, 'b': 3}, {}, {1: 'a'}, {1: 'b'},
+            (1, 'a'), [1, 'a'], 1, 'a', None, ({1: 'a', 'b': 2},), [{1: 'a', 2: 'b'}]]
+
+
+def matrix2_obs(ctx, vals):
+    ids = IdMap()
+    tags = [tag(v, ids) for v in vals]
+    M = [[safe_cmp(x, y) for y in vals] for x in vals]
+    path = os.path.join(ctx.tmp, 'cmp_matrix2.json')
+    with open(path, 'w') as f:
+        json.dump({'vals': tags, 'M': M}, f)
+    return path, tags, M, [{'kind': 'cmprow2', 'i': i + 1} for i in range(len(vals))]
+
+
+def session_obs(c):
+    """replays one sort session TLC generated (spec/OrderSess.tla): renders the seed heap, performs every step through the
+    public API and records, per step, the outcome of the call and every live table and list afterwards"""
+    ids = IdMap()
+    tabs = [rows_table(rows, ids) for rows in c['init']['tabs']]
+    lsts = [[untag(v, ids) for v in l] for l in c['init']['lsts']]
+    steps = []
+    for st in c['hist']:
+        o = {'raised': '', 'out': [], 'colcmp': [], 'again': True, 'adj': [], 'far': []}
+        op = st['op']
+        try:
+            if op in ('sort', 'sortfn', 'sortval'):
+                d = tabs[st['src'] - 1]
+                if op == 'sort':
+                    call = lambda t: t.sort(*st['by']); keycols = st['by']
+                elif op == 'sortfn':
+                    call = lambda t: t.sort(FNS[st['fn']][0]); keycols = FNS[st['fn']][1]
+                else:
+                    call = lambda t: t.sort(**{col: lsts[l - 1] for col, l in st['ords']}); keycols = []      # the caller's list objects themselves
+                res = call(d)
+                o['out'] = proj_rows(res, ids)
+                o['colcmp'] = [[safe_cmp(dict.__getitem__(res, k)[p], dict.__getitem__(res, k)[p + 1]) for k in keycols] for p in range(len(res) - 1)]
+                if op != 'sortval':
+                    o['again'] = proj_rows(call(res), ids) == o['out']
+                tabs.append(res)
+            elif op == 'listsort':
+                xs = lsts[st['lst'] - 1]
+                out = sort(xs) if st['how'] == 'sort' else sorted(xs, key=Cmp)
+                o['out'] = [tag(v, ids) for v in out]
+                o['adj'] = [safe_cmp(out[i], out[i + 1]) for i in range(len(out) - 1)]
+                o['far'] = [[i + 1, j + 1, safe_cmp(out[i], out[j])] for i in range(len(out)) for j in range(i + 2, len(out))]
+                lsts.append(out)
+            elif op == 'setcol':
+                d = tabs[st['src'] - 1]
+                vals = [untag(v, ids) for v in st['vals']]
+                if st['how'] == 'item':
+                    d[st['col']] = vals
+                elif st['how'] == 'attr':
+                    setattr(d, st['col'], vals)
+                else:
+                    getattr(d, st['col'])[st['pos'] - 1] = vals[st['pos'] - 1]      # one element of the column the table holds
+            elif op == 'setlst':
+                lsts[st['lst'] - 1][:] = [untag(v, ids) for v in st['vals']]          # in place: the object stays the same
+        except Exception as e:
+            o['raised'] = type(e).__name__
+        o['tabs'] = [proj_rows(t, ids) for t in tabs]
+        o['lsts'] = [[tag(v, ids) for v in l] for l in lsts]
+        steps.append(o)
+        if o['raised']:
+            break
+    steps += [steps[-1]] * (len(c['hist']) - len(steps))      # a step that raised ends the session: the verdict stops there
+    return {'kind': 'session', 'seed': c['seed'], 'dup': c['dup'], 'init': c['init'], 'hist': c['hist'], 'obs': steps}
+
+
+def short_step(st):
+    keep = {'sort': ('src', 'by'), 'sortfn': ('src', 'fn'), 'sortval': ('src', 'ords'), 'listsort': ('lst', 'how'),
+            'setcol': ('src', 'col', 'how', 'pos'), 'setlst': ('lst',)}[st['op']]
+    return ' '.join([st['op']] + ['%s=%s' % (k, json.dumps(st[k], separators=(',', ':'))) for k in keep])
+
+
 def case_of(o, tags=None):
+    if o['kind'] == 'session':
+        return {'op': 'session', 'seed': o['seed'], 'dup_in_order': o['dup'], 'steps': [short_step(st) for st in o['hist']],
+                'ops': '+'.join(st['op'] for st in o['hist']), 'init': o['init'], 'hist': o['hist']}
     if o['kind'] == 'sort':
         return {'op': o['how'], 'xs': o['xs']}
     if o['kind'] == 'dsort':
@@ -153,16 +236,42 @@ def run(ctx):
                 'sort / dictable.sort: every list / table TLC enumerates (S2C inputs with the CmpModel / CmpModelX result, small and '
                 'large-magnitude universes) plus random longer ones, judged by Trace_Order against the real cmp (adjacent and distant '
                 'pairs of a sorted list). Non-trivial = input not already sorted; distinct by input.')
+    if os.environ.get('VERIF_C07_REPORT_PROPOSED') != '1':      # proposed known findings (props/c07.known.json): reported as KNOWN-FINDING, not as violations
+        with open(os.path.join(os.path.dirname(os.path.abspath(__file__)), 'c07.known.json')) as f:
+            have = {k['id'] for k in ctx.known}
+            ctx.known += [k for k in json.load(f)['known'] if k['id'] not in have]
     ctx.mc('MC_Order', 'MC_Order_laws.cfg')
     ctx.mc('MC_Order', 'MC_Order_lists3.cfg')
     ctx.mc('MC_Order', 'MC_Order_big2.cfg' if ctx.quick else 'MC_Order_big3.cfg')      # law rows are the same; sort laws on lists <= 2 / <= 3
     if not ctx.quick:
         ctx.mc('MC_Order', 'MC_Order_tuples3.cfg')
+    # sort sessions (OrderSess): the constructive level satisfies the single-call law at every call of every history <= 2, is idempotent,
+    # and frames; the focused family does hold a history in which "already sorted on these keys" is stale (EditsBite must fail)
+    ctx.mc('MC_OrderSess', 'MC_OrderSess_quick.cfg' if ctx.quick else 'MC_OrderSess_thorough.cfg')
+    ctx.mc('MC_OrderSess', 'MC_OrderSess_bite.cfg', must_fail='EditsBite')
     obs = []
-    # --- cmp matrix ---
+    # --- cmp matrix, and a second one over dicts whose keys are not strings ---
     vals = universe()
     mat_path, tags, M, rows = matrix_obs(ctx, vals)
     obs += rows
+    vals2 = universe2()
+    mat2_path, tags2, M2, rows2 = matrix2_obs(ctx, vals2)
+    obs += rows2
+    # --- S2C: sort sessions enumerated by TLC (every call, every ordered pair of calls, call ; edit of a touched object ; same call again) ---
+    sessions = ctx.generate('MC_OrderSess', 'MC_OrderSess_gen.cfg')
+    if not ctx.quick:
+        sessions += ctx.generate('MC_OrderSess', 'MC_OrderSess_sim.cfg', simulate=4000, depth=7, seed=ctx.seed + 1, workers=1)
+    sess_disagree = 0
+    for c in sessions:
+        o = session_obs(c); obs.append(o)
+        last = o['obs'][-1]
+        if [last['tabs'], last['lsts']] != [c['model']['tabs'], c['model']['lsts']]:
+            sess_disagree += 1
+        ctx.note(('session', c['seed'], json.dumps(c['hist'])))
+        ctx.evals += len(c['hist'])
+    ctx.sample({'s2c_session': {'seed': sessions[len(sessions) // 2]['seed'], 'steps': [short_step(st) for st in sessions[len(sessions) // 2]['hist']]}})
+    ctx.extra['sessions'] = len(sessions)
+    ctx.extra['session_final_heaps_differing_from_CmpModel_(informational; the trace spec judges)'] = sess_disagree
     # --- S2C: lists and tables enumerated by TLC ---
     gens = ['MC_Order_gen_lists3.cfg', 'MC_Order_gen_tuples2.cfg', 'MC_Order_gen_tables2.cfg', 'MC_Order_gen_big3.cfg'] if ctx.quick else \
            ['MC_Order_gen_lists4.cfg', 'MC_Order_gen_tuples3.cfg', 'MC_Order_gen_tables3.cfg', 'MC_Order_gen_big4.cfg']
@@ -231,11 +340,13 @@ def run(ctx):
             orders.append([c, vs])
         obs.append(dsortval_obs(rows, orders))
         ctx.note(('c2s', i))
-    ctx.evals += len(obs) + len(vals) ** 2
-    bad = ctx.validate('Trace_Order', obs, env={'MAT_FILE': mat_path})
+    ctx.evals += len(obs) + len(vals) ** 2 + len(vals2) ** 2
+    bad = ctx.validate('Trace_Order', obs, env={'MAT_FILE': mat_path, 'MAT2_FILE': mat2_path})
+    tags1, vals1, M1 = tags, vals, M
     for line, clause in bad:
         o = obs[line - 1]
-        if o['kind'] == 'cmprow':
+        if o['kind'] in ('cmprow', 'cmprow2'):
+            tags, vals, M = (tags1, vals1, M1) if o['kind'] == 'cmprow' else (tags2, vals2, M2)
             name, w = clause.split(':')
             a, b = [int(z) for z in w.split(',')]
             i = o['i']
@@ -243,8 +354,10 @@ def run(ctx):
                 trip = [i, a, b]
             else:
                 trip = [a, b]
-            case = {'op': 'cmp', 'pattern': [shape(tags[k - 1]) for k in trip], 'values': [repr(vals[k - 1])[:60] for k in trip]}
+            case = {'op': 'cmp', 'universe': 1 if o['kind'] == 'cmprow' else 2, 'pattern': [shape(tags[k - 1]) for k in trip], 'values': [repr(vals[k - 1])[:60] for k in trip]}
             ctx.violation(name, case, {'indices': trip, 'entries': [[M[p - 1][q - 1] for q in trip] for p in trip]})
+        elif o['kind'] == 'session':
+            ctx.violation(clause, case_of(o), {'steps': [{k: ob[k] for k in ('raised', 'out', 'colcmp', 'again')} for ob in o['obs']]})
         else:
             ctx.violation(clause, case_of(o), {k: o[k] for k in ('out', 'raised', 'adj', 'colcmp', 'again', 'after') if k in o})
     ctx.sample({'cmp_universe_size': len(vals), 'large_magnitude_values': len(big_universe()), 'first_values': [repr(v) for v in vals[:12]]})
@@ -265,9 +378,11 @@ def replay(ctx, body):
     if c['op'] in ('sort', 'Cmp'): obs = [sort_obs(c['xs'], c['op'])]
     elif c['op'] == 'dictable.sort': obs = [dsort_obs(c['rows'], c['by'])]
     elif c['op'] == 'dictable.sort(**byval)': obs = [dsortval_obs(c['rows'], c['orders'])]
+    elif c['op'] == 'session': obs = [session_obs({'seed': c['seed'], 'dup': c['dup_in_order'], 'init': c['init'], 'hist': c['hist']})]
     else:
-        vals = universe(); path, tags, M, rows = matrix_obs(ctx, vals); obs = rows
-        bad = ctx.validate('Trace_Order', obs, env={'MAT_FILE': path})
+        path, tags, M, rows = matrix_obs(ctx, universe()); path2, tags2, M2, rows2 = matrix2_obs(ctx, universe2())
+        obs = rows if c.get('universe', 1) == 1 else rows2
+        bad = ctx.validate('Trace_Order', obs, env={'MAT_FILE': path, 'MAT2_FILE': path2})
         print('replay (whole cmp matrix):', 'REJECTED %s' % bad[:5] if bad else 'accepted'); return 1 if bad else 0
     path, tags, M, rows = matrix_obs(ctx, [None, 1])
     bad = ctx.validate('Trace_Order', obs, env={'MAT_FILE': path})
